@@ -401,7 +401,8 @@ Empty == [T |-> [t \in TaskIds |-> NoTask], P |-> [p \in TplIds |-> "none"], A |
 
 \* what the invariants need to know about the last step (kept small: it is part of the state)
 L(kind, ok, accepted, sfail, tplid, class) ==
-    [kind |-> kind, ok |-> ok, accepted |-> accepted, sfail |-> sfail, tplid |-> tplid, class |-> class, mems |-> {}]
+    [kind |-> kind, ok |-> ok, accepted |-> accepted, sfail |-> sfail, tplid |-> tplid, class |-> class, mems |-> {},
+     changed |-> FALSE]
 
 Init ==
     /\ T = Empty.T /\ P = Empty.P /\ A = {} /\ X = {} /\ run = NoRun
@@ -434,7 +435,13 @@ Complete(q) ==
        /\ IF taint THEN Rebase(h.m) ELSE acc' = r.acc /\ accP' = r.accP /\ mem' = r.mem
        /\ last' = [L("req", h.code < 300, r.accepted, h.m.sfail,
                      IF q.op = "UpdateTpl" THEN (IF q.newid # "" THEN q.newid ELSE q.id) ELSE "", "")
-                   EXCEPT !.mems = IF q.op = "UpdateTpl" THEN { t \in TaskIds : <<q.id, t>> \in mem /\ acc[t] # NoTask } ELSE {}]
+                   EXCEPT !.mems = IF q.op = "UpdateTpl" THEN { t \in TaskIds : <<q.id, t>> \in mem /\ acc[t] # NoTask } ELSE {},
+                          \* did the request leave a trace: definitions, templates, associations
+                          \* (an association left over by a crash - task gone or naming another template - may
+                          \* be cleaned up by any request: that is no trace)
+                          !.changed = (Cat(h.m.T) # Cat(T) \/ h.m.P # P
+                                       \/ { a \in h.m.A : h.m.T[a[2]] # NoTask /\ h.m.T[a[2]].tpl = a[1] }
+                                          # { a \in A : T[a[2]] # NoTask /\ T[a[2]].tpl = a[1] })]
        /\ UNCHANGED <<up, crashes, taint>>
 
 \* how the catalogue visible after a crash relates to the request that was in flight
@@ -456,8 +463,12 @@ CrashClass(q, a0, ap0, mm0, o) ==
     IF cat = a0 /\ dP = ap0 THEN (IF mm0 \subseteq o.A THEN "atomic" ELSE "assoc-missing")
     ELSE IF cat = r.acc /\ dP = r.accP THEN (IF r.mem \subseteq o.A THEN "atomic" ELSE "assoc-missing")
     \* rename: tasks.Create(new); tasks.Delete(old) are two transactions
+    \* the named class is exactly "BOTH ids are there": the old one as before, the new one as after, nothing
+    \* else touched.  The mirror image - neither id there, the definition lost - is no named class.
     ELSE IF q.op = "UpdateTask" /\ q.newid # "" /\ q.newid # q.id /\ dP = ap0
-            /\ \A t \in TaskIds : cat[t] \in {a0[t], r.acc[t]}
+            /\ a0[q.id] # NoTask /\ cat[q.id] = a0[q.id]
+            /\ r.acc[q.newid] # NoTask /\ cat[q.newid] = r.acc[q.newid]
+            /\ \A t \in TaskIds \ {q.id, q.newid} : cat[t] = a0[t]
          THEN "rename-both-ids"
     \* template update: the template and each of its tasks are separate transactions
     ELSE IF q.op = "UpdateTpl"
@@ -516,6 +527,16 @@ CatalogueIsAccepted == Cat(T) = acc /\ P = accP
 \* a request is answered with success iff its definition was accepted and every start it needed
 \* succeeded (an accepted definition whose start failed is the only accepted request answered with an error)
 AnswerMatches == last.kind = "req" => (last.ok <=> (last.accepted /\ ~last.sfail))
+
+\* a request that is not accepted leaves no trace: no definition, template or association changes (the only
+\* accepted requests answered with an error are those whose start failed, see AnswerMatches).  Once a crash
+\* has left a named third state, a rejected template update may repair half-updated tasks (taint).
+FailedRequestLeavesNoTrace ==
+    last.kind = "req" /\ ~last.accepted /\ ~taint => ~last.changed
+\* the template's task list is the set of tasks that name the template (and the template exists)
+TemplateTaskList ==
+    crashes = 0 => \A t \in TaskIds, p \in TplIds :
+        <<p, t>> \in A <=> (T[t] # NoTask /\ T[t].tpl = p /\ <<p, t>> \in mem)
 
 \* executing <=> enabled and its (last) start succeeded; every enabled task had its start attempted
 Enabled(t) == T[t] # NoTask /\ T[t].status = "enabled"
